@@ -109,17 +109,42 @@ func zzLowestEligible(t *torrent, pe *peer.Peer) int {
 	return best
 }
 
-func zzPickerSeq(steps int, sequential bool) {
+func zzPickerSeq(steps int, sequential bool) { zzPickerRun(steps, sequential, false) }
+
+func zzPickerRun(steps int, sequential, rich bool) {
 	info := metainfo.ZZConcreteInfo(zzPieceLen, zzPickPieces, []int64{zzPieceLen * zzPickPieces}, false)
 	sto := &zzStorage{}
 	t := zzNewTorrent(info, nil, sto)
 	t.sequential = sequential
 	t.session.config.EndgameMaxDuplicateDownloads = vrt.Choice("endgame_limit", 2) + 1
 	zzStartDownloading(t, sto)
+	// arbitrary progress so far: some pieces already verified (not all: still downloading)
+	ndone := 0
+	for i := range t.pieces {
+		if rich && vrt.Bool("piece_done") {
+			t.pieces[i].Done = true
+			t.bitfield.Set(uint32(i))
+			ndone++
+		}
+	}
+	vrt.Assume(ndone < zzPickPieces)
 	peers := []*peer.Peer{zzAddPeer(t, 1, false, zzFastExt), zzAddPeer(t, 2, false, zzPlainExt)}
 	vrt.Assert(peers[0] != nil && peers[1] != nil, "peers not added")
 	if peers[0] == nil || peers[1] == nil {
 		return
+	}
+	// each peer announces an arbitrary set of pieces with its first message and may unchoke us
+	for _, pe := range peers {
+		if !rich {
+			break
+		}
+		from := len(zzSentLog)
+		bits := vrt.U8("peer_bitfield") & 0xe0
+		t.handlePeerMessage(peer.Message{Peer: pe, Message: peerprotocol.BitfieldMessage{Data: []byte{bits}}})
+		if vrt.Bool("peer_unchokes") {
+			t.handlePeerMessage(peer.Message{Peer: pe, Message: peerprotocol.UnchokeMessage{}})
+		}
+		zzPickerChecks(t, peers, from, sequential)
 	}
 	for step := 0; step < steps; step++ {
 		from := len(zzSentLog)
@@ -194,3 +219,13 @@ func ZZPickerSequential4() { zzPickerSeq(4, true) }
 
 // ZZPickerSequential3: 3 events in sequential mode.
 func ZZPickerSequential3() { zzPickerSeq(3, true) }
+
+// ZZPickerRich1: arbitrary progress (pieces already verified), arbitrary
+// bitfields and choke state for both peers, then 1 event.
+func ZZPickerRich1() { zzPickerRun(1, false, true) }
+
+// ZZPickerRich2: the same, then 2 events.
+func ZZPickerRich2() { zzPickerRun(2, false, true) }
+
+// ZZPickerRichSequential1: sequential mode.
+func ZZPickerRichSequential1() { zzPickerRun(1, true, true) }
